@@ -1,6 +1,7 @@
 package exec
 
 import (
+	"errors"
 	"math"
 	"strconv"
 	"strings"
@@ -66,13 +67,7 @@ func (n String) String() string {
 }
 
 func (n String) Number() float64 {
-	ret, err := strconv.ParseFloat(string(n), 64)
-
-	if err != nil {
-		return math.NaN()
-	}
-
-	return ret
+	return getStringNumber(string(n))
 }
 
 func (n String) Bool() bool {
@@ -111,10 +106,34 @@ func (n NodeSet) Bool() bool {
 	return len(n) > 0
 }
 
+// getStringNumber converts a string to a number as the XPath number()
+// function does: optional whitespace, an optional minus sign, a decimal
+// numeral (digits with an optional point, or a point followed by digits),
+// optional whitespace. Everything else strconv.ParseFloat would accept
+// (exponents, '+', hexadecimal, underscores, "Infinity", "NaN") is NaN.
 func getStringNumber(str string) float64 {
+	str = strings.Trim(str, " \t\r\n")
+	digits, points := 0, 0
+
+	for i, c := range str {
+		switch {
+		case c >= '0' && c <= '9':
+			digits++
+		case c == '.':
+			points++
+		case c == '-' && i == 0:
+		default:
+			return math.NaN()
+		}
+	}
+
+	if digits == 0 || points > 1 {
+		return math.NaN()
+	}
+
 	ret, err := strconv.ParseFloat(str, 64)
 
-	if err != nil {
+	if err != nil && !errors.Is(err, strconv.ErrRange) {
 		return math.NaN()
 	}
 
